@@ -36,6 +36,9 @@ use zipora::entropy::simd_huffman::{HuffmanSimdTier, SimdHuffmanConfig, SimdHuff
 /// Imports of this half (the merged header adds the other half's imports and dispatches on the op number).
 #[path = "c01_b.rs"]
 mod b;
+/// Oracle breadth: secondary entry points, presets / options, thresholds, object histories (cells `wide/...`, S-only).
+#[path = "c01_wide.rs"]
+mod wide;
 
 pub const IMPORTS_A: &str = "From ZV.C01 Require Import Model ModelCtx.\n";
 pub const HEADER_A: &str = r#"From ZV.Common Require Import Base Run.
@@ -719,7 +722,7 @@ pub fn run_one(cx: &mut Cx, c: &Value) -> bool {
         "crafted" => { let v = view_from_json(c["order"].as_u64().unwrap_or(1), &c["tables"], &c["ctxmap"]); case_crafted(cx, &v, &data, mask, true); true }
         "adaptive" => { case_adaptive(cx, &data); true }
         "varlen" => { case_varlen(cx, c["value"].as_u64().unwrap_or(0) as u32, c["length"].as_u64().unwrap_or(1) as u32, c["bmi2"].as_bool().unwrap_or(true)); true }
-        _ => false,
+        _ => wide::run_one(cx, c),
     }
 }
 
@@ -897,8 +900,12 @@ pub fn run_cells(sum: &mut Summary, shards: &mut CoqShards, rng: &mut Rng, args:
             case_varlen(cx, value, length, k % 2 == 0);
         }
     }), 0, 2));
+    // 7. breadth: object histories, presets / options, thresholds (c01_wide.rs; no Coq counterpart)
+    jobs.extend(wide::jobs(th));
     let mut used = HashMap::new();
     run_jobs(jobs, sum, shards, rng, th, &mut used);
+    let wide_cells: Vec<String> = sum.cells.keys().filter(|k| k.starts_with("wide/")).cloned().collect();
+    for c in wide_cells { sum.cell_status(&c, "S-only"); }
 }
 
 /// Header of the generated Coq case files: both halves' models, cases dispatched on the op number
@@ -920,7 +927,7 @@ fn write_all(sum: &mut Summary, args: &Args, shards: &CoqShards, shards_b: &CoqS
 
 pub fn run(args: &Args) {
     quiet_panics();
-    let rule = format!("{} || {}", RULE, b::RULE_B);
+    let rule = format!("{} || {} || {}", RULE, b::RULE_B, wide::RULE_W);
     let mut sum = Summary::new("C01", &rule);
     let hdr = merged_header();
     let mut shards = CoqShards::new(&hdr, 150);
@@ -952,7 +959,9 @@ pub fn run(args: &Args) {
         }
         cx.flush(&mut sum, &mut shards, &mut HashMap::new());
     }
+    let t0 = std::time::Instant::now();
     run_cells(&mut sum, &mut shards, &mut rng, args);
+    if std::env::var("ZV_TIMING").is_ok() { eprintln!("run_cells (Huffman half + breadth): {} ms", t0.elapsed().as_millis()); }
     let mut rng_b = Rng::new(args.seed ^ 0x5eed_b);
     b::run_cells(&mut sum, &mut shards_b, &mut rng_b, args);
     write_all(&mut sum, args, &shards, &shards_b);
